@@ -214,6 +214,29 @@ func init() {
 					}
 				}
 			}
+		case "clamp":
+			f := rt.Func("clampSliceBound")
+			cfg := &specCfg{Call: stdErrCall}
+			outs, ab := cfg.run(f, []sval{symv("v"), symv("length"), symv("low"), symv("high")})
+			for _, o := range outs {
+				fmt.Println(o.Vals, o.Cond)
+			}
+			fmt.Println(ab)
+		case "sliceidx":
+			f := rt.Func("SliceIndices")
+			for _, st := range []sval{symv("step")} {
+				cfg := &specCfg{Call: func(fn *ssa.Function, call *ssa.Call, nth int, args []sval) (sval, bool) {
+					if cal := call.Call.StaticCallee(); cal != nil && cal.Name() == "clampSliceBound" {
+						return symv(fmt.Sprintf("clamp(%s, %s, %s, %s)", args[0], args[1], args[2], args[3])), true
+					}
+					return stdErrCall(fn, call, nth, args)
+				}}
+				outs, ab := cfg.run(f, []sval{symv("length"), symv("start"), symv("end"), st})
+				for _, o := range outs {
+					fmt.Println(o.Vals, o.Cond)
+				}
+				fmt.Println(ab)
+			}
 		case "condTrue":
 			f := rt.Func("condTrue")
 			for _, l := range []string{"Invalid", "Void", "Nil", "Bool", "Int", "Float", "String", "List", "Map"} {
